@@ -14,6 +14,19 @@ import (
 )
 
 const none = 7777    // NONE of the design configurations
+const odd = 777777   // ODD: a value spelled in a way RFC 7950 does not allow
+const far = 5000     // a literal of 64-bit magnitude or beyond
+
+// oddSpellings of a small in-range value: all must be refused.
+var oddSpellings = []string{"0x1", "+1", "1_0", "0b1", "0o7", "1.0", "1e1", "0x", "१"}
+
+// farLiteral spells the far-out values so that a reading that wraps around at 64 bits lands inside the legal range.
+func farLiteral(v int64, i int) string {
+	if v > 0 {
+		return []string{"18446744073709551615", "18446744071562067968", "9223372036854775808", "36893488147419103239"}[i%4]
+	}
+	return []string{"-18446744073709551609", "-18446744073709551611", "-9223372036854775809", "-36893488147419103225"}[i%4]
+}
 const noneB = 999999 // NONE of the trace configuration
 
 func init() {
@@ -148,9 +161,18 @@ func exec(kind byte, body []byte) *core.Verdict {
 		v.OK, v.Sig, v.Detail = false, sig, fmt.Sprintf("%s ops=%v: ", route, c.Ops)+fmt.Sprintf(f, a...)
 		return v
 	}
-	// route 1: the API
+	// route 1: the API (values that do not fit the API's int64 are for the YANG route only)
+	api := true
+	for _, o := range c.Ops {
+		if o.Val == odd || o.Val == far || o.Val == -far {
+			api = false
+		}
+	}
 	e := newType(c.Uniq)
 	for i, o := range c.Ops {
+		if !api {
+			break
+		}
 		var err error
 		if o.Val == none {
 			err = e.SetNext(o.Name)
@@ -161,10 +183,10 @@ func exec(kind byte, body []byte) *core.Verdict {
 			return fail("api-accept-differs", "member #%d %s: specification accepts=%v, library error=%v", i+1, o.Name, c.Oks[i], err)
 		}
 	}
-	if got := pairs(e.NameMap()); got != pairs(want) {
+	if got := pairs(e.NameMap()); api && got != pairs(want) {
 		return fail("api-values-differ", "specification %s, library %s", pairs(want), got)
 	}
-	if c.Uniq {
+	if c.Uniq && api {
 		nm, vm := e.NameMap(), e.ValueMap()
 		if len(nm) != len(vm) {
 			return fail("views-not-inverse", "NameMap %v ValueMap %v", nm, vm)
@@ -175,13 +197,19 @@ func exec(kind byte, body []byte) *core.Verdict {
 			}
 		}
 	}
-	if len(e.Names()) != len(want) || len(e.Values()) != len(want) {
+	if api && (len(e.Names()) != len(want) || len(e.Values()) != len(want)) {
 		return fail("names-values-length", "Names %v Values %v", e.Names(), e.Values())
 	}
 	// route 2: a YANG type through Process (rejected as a whole when any member is)
 	lits := make([]string, len(c.Ops))
 	for i, o := range c.Ops {
-		if o.Val != none {
+		switch {
+		case o.Val == none:
+		case o.Val == odd:
+			lits[i] = oddSpellings[(i+len(c.Ops)+len(o.Name))%len(oddSpellings)]
+		case o.Val == far || o.Val == -far:
+			lits[i] = farLiteral(o.Val, i+len(c.Ops))
+		default:
 			lits[i] = fmt.Sprint(gamma(o.Val, c.Uniq))
 		}
 	}
